@@ -14,6 +14,7 @@ SIG = {
                       'ite(a == 0, result == abs(b), True)']},
     'inverse': {'sort': 'int[nat]', 'uf': True,
                 'facts': ['ite(m > 0, result < m, True)', 'ite(m > 0, ite(spec.keys.gcd(u, m) == 1, (u * result) % m == 1 % m, True), True)']},
+    'lcm': {'sort': 'int[nat]', 'uf': True, 'facts': ['result >= 0']},
     # verdict of the probabilistic primality test (True = PROBABLY_PRIME, False = COMPOSITE); C14 proves the test sound
     'probable_prime': {'sort': 'bool', 'uf': True},
     # FIPS 180-4 SHA-512 and FIPS 202 SHAKE256 (first n octets of the output): values uninterpreted (C03)
@@ -36,6 +37,11 @@ def gcd(a, b):
     pass
 
 
+def lcm(a, b):
+    """least common multiple of |a| and |b| (0 if either is 0)"""
+    pass
+
+
 def inverse(u, m):
     """the x in [0, m) with u*x == 1 (mod m); meaningful when m > 0 and gcd(u, m) == 1"""
     pass
@@ -54,6 +60,53 @@ def probable_prime(n):
     """verdict of the probabilistic primality test on n (C14 proves the test sound: a prime is never called COMPOSITE).
     True = PROBABLY_PRIME, False = COMPOSITE"""
     pass
+
+
+# ====================================================================================================== RSA (RFC 8017 3.1, 3.2; FIPS 186-4 5.1, B.3.1)
+def rsa_public_ok(n, e):
+    """RFC 8017 3.1: n a product of odd primes (so n is odd), 3 <= e <= n - 1 with GCD(e, lambda(n)) = 1; what can be tested on (n, e)
+    alone: 1 < e < n, e coprime to n, n odd"""
+    return 1 < e and e < n and gcd(n, e) == 1 and n % 2 == 1
+
+
+def rsa_private_ok(n, e, d, p, q, u):
+    """RFC 8017 3.2 with the library's CRT convention u = p^-1 mod q: n = p*q with probable-prime factors, e*d == 1 mod lcm(p-1, q-1),
+    1 < d < n coprime to n, 1 < u < q with p*u == 1 mod q"""
+    if not (p > 1 and q > 1 and n == p * q):
+        return False
+    if not (rsa_public_ok(n, e) and 1 < d and d < n and gcd(n, d) == 1):
+        return False
+    if not (probable_prime(p) and probable_prime(q)):
+        return False
+    lam = ((p - 1) * (q - 1)) // gcd(p - 1, q - 1)
+    return (e * d) % lam == 1 and 1 < u and u < q and (p * u) % q == 1
+
+
+# ====================================================================================================== DSA / ElGamal (FIPS 186-4 4.1, 4.2, B.1.1, A.2.2; HAC 8.4)
+def dsa_domain_ok(p, q, g):
+    """FIPS 186-4 4.1 / A.2.2: p and q (probable) primes, q divides p - 1, 1 < g < p, g^q == 1 mod p"""
+    if not (p > 0 and q > 0 and probable_prime(p) and probable_prime(q)):
+        return False
+    return (p - 1) % q == 0 and 1 < g and g < p and pow(g, q, p) == 1
+
+
+def dsa_key_ok(y, g, p, q, x):
+    """FIPS 186-4 4.1: valid domain, 0 < y < p; for a private key (x is not None) 0 < x < q and y == g^x mod p"""
+    if not (dsa_domain_ok(p, q, g) and 0 < y and y < p):
+        return False
+    if x is None:
+        return True
+    return 0 < x and x < q and pow(g, x, p) == y
+
+
+def elgamal_key_ok(p, g, y, x):
+    """the library's documented conditions (ElGamal.construct): p (probable) prime, 1 < g < p, g^(p-1) == 1 mod p, 1 <= y < p; for a
+    private key 1 < x < p and y == g^x mod p"""
+    if not (p > 1 and probable_prime(p) and 1 < g and g < p and pow(g, p - 1, p) == 1 and 1 <= y and y < p):
+        return False
+    if x is None:
+        return True
+    return 1 < x and x < p and pow(g, x, p) == y
 
 
 # ====================================================================================================== curves
